@@ -287,6 +287,20 @@ def make_stock(fd, cfg, cls_name, solver=None, lm=None, inflow=None, stock=None)
         for q_ in ("stock", "inflow", "outflow"):
             if q_ not in kw and not (cls_name == "SimpleFlowDrivenStock" and q_ == "outflow"):
                 kw[q_] = fd.StockArray(dims=dims, values=_as_given(np.full(cfg["shape"], 7.0), cfg["layout"]))
+    provisional = lm is None and cls_name != "SimpleFlowDrivenStock" and (len(cfg["items"]) + 3 * len(cfg["model"])) % 11 == 0 and all(isinstance(q_, int) for q_ in cfg["items"])
+    if provisional:
+        # the time dimension still carries provisional labels (0, 1, 2, ...) while the stock and its lifetime model are declared; the
+        # user writes the calendar years into that very Dimension object before anything is computed
+        final_items = list(cfg["tdim"].items)
+        cfg["tdim"].items[:] = list(range(len(final_items)))
+        try:
+            if "lifetime_model" not in kw or kw.get("lifetime_model") is None or isinstance(kw.get("lifetime_model"), type):
+                pass
+            kw["lifetime_model"] = build_lm(fd, cfg)
+            s_prov = cls(**kw)
+        finally:
+            cfg["tdim"].items[:] = final_items
+        return s_prov
     s_new = cls(**kw)
     if lm is None and cfg.get("layout", "C") == "C":
         # the stock the user goes on with is sometimes a copy of the one that was built (a pickle round trip as after multiprocessing,
@@ -511,7 +525,7 @@ def c16_case(rec, hub, rng, tier, which):
 
     def run(values, cfg_=None, lm=None):
         c = cfg_ or cfg
-        s = make_stock(fd, c, cls_name, solver=solver, lm=lm if lm is not None else build_lm(fd, c), **{drive_attr: values})
+        s = make_stock(fd, c, cls_name, solver=solver, lm=lm, **{drive_attr: values})  # (lm None: make_stock builds the model itself)
         with quiet():
             if after_refusal:
                 good = s.lifetime_model.n_pts_per_interval
